@@ -365,6 +365,10 @@ def check_results(c, item):
                 for _ in range(5):          # more advances than reactions and than slots: the ring has wrapped
                     q.py_advance_time()
                 q.py_add_reaction(q.py_get_next_queue_time() + 1.0, 1, 4.0); q.py_add_reaction(q.py_get_next_queue_time(), 2, 1.0)
+                # and something distinct in every slot of every reaction (the wrapped part of the ring included)
+                for r_ in range(3):
+                    for j_ in range(4):
+                        q.py_add_reaction(q.py_get_next_queue_time() + 0.5 * j_, r_, 1.0 + 10 * r_ + j_)
             q2 = cp(q)
             a, b = drain_queue(q, 3, 4), drain_queue(q2, 3, 4)
         elif what in ('VolumeCellState', 'DelayVolumeCellState', 'LineageVolumeCellState', 'LineageVolumeCellState-time0', 'LineageVolumeCellState-dead'):
@@ -376,6 +380,9 @@ def check_results(c, item):
                 for _ in range(4):
                     q.py_advance_time()
                 q.py_add_reaction(q.py_get_next_queue_time() + 0.5, 0, 2.0); q.py_add_reaction(q.py_get_next_queue_time(), 1, 1.0)
+                for r_ in range(2):
+                    for j_ in range(3):
+                        q.py_add_reaction(q.py_get_next_queue_time() + 0.5 * j_, r_, 1.0 + 10 * r_ + j_)
                 o = DelayVolumeCellState(time=1.5, state=np.array([1.0, 2.0, 3.0]), volume=2.5, queue=q)
             elif what == 'LineageVolumeCellState-dead':
                 o = LineageVolumeCellState(v0=0.9, t0=0.25, state=np.array([5.0, 0.0, 1.0]), volume=1.7, time=2.0, divided=-1, dead=2)
